@@ -72,7 +72,7 @@ PROPS["C18"] = dict(
                "Gallina from the standard; a real server is fed scripted ClientHello sequences under virtual time with instrumented private keys.",
     level_note="Trusted: Coq kernel + vm_compute; HMAC idealised as collision-free (explicit premise of C18_binding); hand-written model tied by correspondence; "
                "the default per-connection random secret is the first 32 bytes the connection draws from Config.Rand, which the harness supplies (a known stream), so its cookies are recomputed too.",
-    code_names={1: "cookie-bytes-differ-from-HMAC-SM3-of-unambiguous-encoding", 2: "cookie-accepted-for-other-address-fields-secret-or-bytes",
+    code_names={1: "cookie-bytes-differ-from-HMAC-SM3-of-unambiguous-encoding", 16: "cookie-issued-by-another-connection-of-the-listener-accepted-or-issued-again", 2: "cookie-accepted-for-other-address-fields-secret-or-bytes",
                 3: "valid-cookie-refused", 4: "covered-field-encoding-differs", 10: "not-exactly-one-response-before-valid-cookie",
                 11: "response-before-valid-cookie-is-not-HelloVerifyRequest", 12: "HelloVerifyRequest-larger-than-request",
                 13: "private-key-operation-before-valid-cookie", 14: "valid-cookie-answered-by-HelloVerifyRequest", 15: "HelloVerifyRequest-cookie-differs", "hang": "hang"},
